@@ -423,8 +423,7 @@ theorem Gaussian_cdf_deriv (d : Gen.Gaussian R) (x : ℝ) (hσ : 0 < d.sigma.val
   have hfun : (fun t : ℝ => (Gen.Gaussian.cdf_real d ⟨t⟩).val) =
       fun t => 1 / 2 * (1 + R.erfR ((t - d.mu.val) / (d.sigma.val * Real.sqrt 2))) := by
     funext t
-    simp only [Gen.Gaussian.cdf_real, R.erf_val, R.div_val, R.sub_val, R.mul_val, R.add_val, R.sqrt2_val,
-      one_val, half_val]
+    exact Gaussian_cdf_eq d t
   have h2pi : (0:ℝ) < 2 * π := by positivity
   have hln : (Gen.Gaussian.ln_f_real d ⟨x⟩).val =
       -(((x - d.mu.val) / (d.sigma.val * Real.sqrt 2)) ^ 2) + (-Real.log d.sigma.val)
